@@ -102,6 +102,11 @@ func (r *Redirect) Exec(ctx context.Context, qCtx *query_context.Context, next s
 	q.Question[0].Name = redirectTarget
 	defer func() {
 		q.Question[0].Name = orgQName
+		// A plugin down the chain may have replaced the query of qCtx by
+		// a copy of it (e.g. dual_selector). Restore that one as well.
+		if cq := qCtx.Q(); cq != q && len(cq.Question) == 1 && cq.Question[0].Name == redirectTarget {
+			cq.Question[0].Name = orgQName
+		}
 	}()
 	err := next.ExecNext(ctx, qCtx)
 	if r := qCtx.R(); r != nil {
